@@ -335,6 +335,7 @@ fn tree_choose(root: &Tree, depth: usize, path: u64) -> bool {
 #[derive(Clone, Default)]
 pub struct Setup {
     pub ents: Vec<(u32, i32)>,          // alive (index, generation), ascending
+    pub raised: Vec<(u32, i32)>,        // subset of `ents`: created atomically, not yet merged by `maintain()`
     pub stores: [Vec<(u32, i64)>; 16],  // ascending
     pub bits: [Vec<u32>; 4],            // ascending
 }
@@ -364,6 +365,25 @@ impl Setup {
         let n = self.ents.last().map(|e| e.0 + 1).unwrap_or(0);
         let mut alive = vec![false; n as usize];
         for e in &self.ents { alive[e.0 as usize] = true; }
+        // raised: must be alive with that generation. A raised handle of generation g >= 2 is always
+        // constructible (index brought to g-1, deleted, popped from the free list by the atomic create).
+        // Generation 1 means a never-used index: the atomic create only hands those out once the free
+        // list is empty, in ascending order from the top -> only a contiguous top suffix of raised
+        // generation-1 entities in a world without dead indices is constructible; others are demoted
+        // to ordinary (merged) entities.
+        {
+            let mut gen_of = vec![0i32; n as usize];
+            for e in &self.ents { gen_of[e.0 as usize] = e.1; }
+            self.raised.retain(|e| e.0 < n && gen_of[e.0 as usize] == e.1);
+            self.raised.sort();
+            self.raised.dedup_by_key(|e| e.0);
+            let no_dead = alive.iter().all(|&a| a);
+            let mut is_r1 = vec![false; n as usize];
+            for e in &self.raised { if e.1 == 1 { is_r1[e.0 as usize] = true; } }
+            let mut top = n as usize;   // first index of the constructible suffix
+            if no_dead { while top > 0 && is_r1[top - 1] { top -= 1; } }
+            self.raised.retain(|e| e.1 >= 2 || (e.0 as usize) >= top);
+        }
         for k in 0..16 {
             let st = &mut self.stores[k];
             if k < 14 { st.retain(|e| e.0 < n && alive[e.0 as usize]); } else { st.retain(|e| e.0 < n); }
@@ -383,6 +403,19 @@ impl Setup {
         if !self.ents.is_empty() {
             out.push_str("ents");
             let e = &self.ents;
+            let mut i = 0;
+            while i < e.len() {
+                let mut j = i;
+                while j + 1 < e.len() && e[j + 1].0 == e[j].0 + 1 && e[j + 1].1 == e[i].1 { j += 1; }
+                if j == i { let _ = write!(out, " {}:{}", e[i].0, e[i].1); }
+                else { let _ = write!(out, " {}-{}:{}", e[i].0, e[j].0, e[i].1); }
+                i = j + 1;
+            }
+            out.push('\n');
+        }
+        if !self.raised.is_empty() {
+            out.push_str("raised");
+            let e = &self.raised;
             let mut i = 0;
             while i < e.len() {
                 let mut j = i;
@@ -435,35 +468,75 @@ fn build_world(s: &Setup) -> H {
     let n = s.ents.last().map(|e| e.0 + 1).unwrap_or(0);
     let mut want = vec![0i32; n as usize];
     for &(i, g) in &s.ents { want[i as usize] = g; }
+    // raised entities: `reuse` (generation >= 2: index is brought to generation g-1, deleted, and handed
+    // out again by the atomic create) and `fresh` (generation 1: a contiguous top suffix, never created
+    // before the atomic phase). `tgt[i]` = generation index i must be alive with before the atomic phase.
+    let mut is_raised = vec![false; n as usize];
+    for &(i, g) in &s.raised {
+        if want[i as usize] != g { die("setup: raised entry is not an alive (index, generation)"); }
+        is_raised[i as usize] = true;
+    }
+    let n_fresh = s.raised.iter().filter(|e| e.1 == 1).count() as u32;
+    let n0 = n - n_fresh;
+    for &(i, g) in &s.raised { if g == 1 && i < n0 { die("setup: raised generation-1 entities must be a top suffix"); } }
+    let tgt: Vec<i32> = (0..n as usize).map(|i| if is_raised[i] { want[i] - 1 } else { want[i] }).collect();
     let mut handles: HashMap<(u32, i32), Entity> = HashMap::with_capacity(n as usize + 16);
     let mut cur: Vec<Entity> = Vec::with_capacity(n as usize);
-    for i in 0..n {
+    for i in 0..n0 {
         let e = world.create_entity().build();
         assert!(e.id() == i && e.gen().id() == 1, "setup: unexpected first handle");
         handles.insert((i, 1), e);
         cur.push(e);
     }
-    let maxg = want.iter().copied().max().unwrap_or(0);
+    let maxg = tgt.iter().copied().max().unwrap_or(0);
     for lvl in 2..=maxg {
-        let del: Vec<Entity> = (0..n as usize).filter(|&i| want[i] >= lvl).map(|i| cur[i]).collect();
+        let del: Vec<Entity> = (0..n0 as usize).filter(|&i| tgt[i] >= lvl).map(|i| cur[i]).collect();
         world.delete_entities(&del).expect("setup: delete");
         world.maintain();
         for _ in 0..del.len() {
             let e = world.create_entity().build();
             let i = e.id() as usize;
-            assert!(i < n as usize && want[i] >= lvl && e.gen().id() == lvl, "setup: index not reused as expected");
+            assert!(i < n0 as usize && tgt[i] >= lvl && e.gen().id() == lvl, "setup: index not reused as expected");
             handles.insert((e.id(), lvl), e);
             cur[i] = e;
         }
     }
-    let dead: Vec<Entity> = (0..n as usize).filter(|&i| want[i] == 0).map(|i| cur[i]).collect();
+    let dead: Vec<Entity> = (0..n0 as usize).filter(|&i| want[i] == 0).map(|i| cur[i]).collect();
     world.delete_entities(&dead).expect("setup: delete dead");
     world.maintain();
+    // the to-be-raised indices go to the free list last, so the atomic creates pop exactly them
+    let reuse: Vec<Entity> = (0..n0 as usize).filter(|&i| is_raised[i]).map(|i| cur[i]).collect();
+    if !reuse.is_empty() {
+        world.delete_entities(&reuse).expect("setup: delete to-be-raised");
+        world.maintain();
+    }
+    {
+        let ents = world.entities();
+        for _ in 0..reuse.len() {
+            let e = ents.create();   // Entities::create = Allocator::allocate_atomic
+            let i = e.id() as usize;
+            if !(i < n0 as usize && is_raised[i] && e.gen().id() == want[i] && !handles.contains_key(&(e.id(), want[i]))) {
+                die(&format!("setup: atomic create returned {}:{} which is not a requested raised handle", e.id(), e.gen().id()));
+            }
+            handles.insert((e.id(), want[i]), e);
+            cur[i] = e;
+        }
+        for j in 0..n_fresh {
+            let e = ents.create();
+            if !(e.id() == n0 + j && e.gen().id() == 1) {
+                die(&format!("setup: atomic create returned {}:{} instead of the fresh index {}:1", e.id(), e.gen().id(), n0 + j));
+            }
+            handles.insert((e.id(), 1), e);
+            cur.push(e);
+        }
+        // NO maintain from here on: these entities stay in the `raised` set of the allocator
+    }
     {
         let ents = world.entities();
         for i in 0..n as usize {
-            assert!(ents.is_alive(cur[i]) == (want[i] > 0), "setup: aliveness mismatch");
-            if want[i] > 0 { assert!(cur[i].gen().id() == want[i], "setup: generation mismatch"); }
+            if ents.is_alive(cur[i]) != (want[i] > 0) { die("setup: aliveness mismatch"); }
+            if want[i] > 0 && cur[i].gen().id() != want[i] { die("setup: generation mismatch"); }
+            if want[i] > 0 && ents.entity(i as u32) != cur[i] { die("setup: Entities::entity disagrees with the handle"); }
         }
     }
     for k in 0..14usize {
@@ -932,7 +1005,7 @@ fn run_file(path: &str, out: &mut String) {
                 have_case = true;
                 let _ = writeln!(out, "case {}", ts.get(1).copied().unwrap_or("anon"));
             }
-            "ents" | "store" | "bitset" => {
+            "ents" | "raised" | "store" | "bitset" => {
                 if !have_case { have_case = true; out.push_str("case anon\n"); }
                 if world.is_some() { bad("setup line after the first op of a case"); }
                 match ts[0] {
@@ -942,6 +1015,13 @@ fn run_file(path: &str, out: &mut String) {
                         let g: i32 = g.parse().unwrap_or_else(|_| bad("bad generation"));
                         if g < 1 || hi > MAXIDX { bad("bad ents token"); }
                         for i in lo..=hi { setup.ents.push((i, g)); }
+                    },
+                    "raised" => for t in &ts[1..] {
+                        let (r, g) = t.split_once(':').unwrap_or_else(|| bad("bad raised token"));
+                        let (lo, hi) = parse_range(r).unwrap_or_else(|| bad("bad raised token"));
+                        let g: i32 = g.parse().unwrap_or_else(|_| bad("bad generation"));
+                        if g < 1 || hi > MAXIDX { bad("bad raised token"); }
+                        for i in lo..=hi { setup.raised.push((i, g)); }
                     },
                     "store" => {
                         if ts.len() < 3 { bad("bad store line"); }
